@@ -350,6 +350,41 @@ def h_compressed_body(S, B):
     S.observe("outcome", type(err).__name__ if err is not None else len(got.data))
 
 
+def h_interrupted_encode(S, B):
+    """the sender is used by every thread of a process: while one thread builds message A it can be interrupted at any
+    statement, and another thread builds a complete message B in between (the whole of B scheduled at that point).  Each
+    message still decodes to its own fields: building a message uses no state shared between messages."""
+    from pysym.api import statement_lines
+    config.COMPRESSION = False
+    lines = statement_lines(protocol.SendingMessage.__init__)
+    at = S.choice("A_is_interrupted_before_line", lines)
+    seqA = S.int("A.seq", 0, 65535)
+    seqB = S.int("B.seq", 0, 65535)
+    typA = S.int("A.type", 0, 255)
+    typB = S.int("B.type", 0, 255)
+    annA = {"AAAA": b"1"} if S.flag("A_has_annotation") else None
+    built = {}
+
+    def build_B():
+        built["B"] = protocol.SendingMessage(typB, 0, seqB, 4, b"payload-of-B-which-is-longer", annotations={"BBBB": b"22", "CCCC": b""})
+    with S.preempting(protocol.SendingMessage.__init__, at, build_B):
+        msgA = protocol.SendingMessage(typA, 0, seqA, 2, b"payload-A", annotations=annA)
+    S.cover("interrupted" if "B" in built else "not-reached")
+    for name, msg, typ, seq, ser, payload, nann in (("A", msgA, typA, seqA, 2, b"payload-A", 1 if annA else 0),) + \
+            ((("B", built["B"], typB, seqB, 4, b"payload-of-B-which-is-longer", 2),) if "B" in built else ()):
+        conn = socketutil.SocketConnection(PlainSock(bytes(msg.data) if not S.symbolic else msg.data))
+        got = err = None
+        try:
+            got = protocol.recv_stub(conn)
+        except Exception as x:
+            err = x
+        S.check("message-%s-decodes" % name, err is None)
+        if got is not None:
+            S.check("message-%s-keeps-its-own-header-fields" % name, And(got.type == typ, got.seq == seq, got.serializer_id == ser))
+            S.check("message-%s-keeps-its-own-payload-and-annotations" % name, eq(bytes(got.data) if not S.symbolic else got.data, payload) and len(got.annotations) == nann)
+    S.observe("reached", "B" in built)
+
+
 def _reset():
     from pysym.runner import default_reset
     default_reset()
@@ -372,6 +407,10 @@ SPECS = [
                  "check:re-encode-equivalent"],
          native_patch=env.native_env_zlib, reset=_reset,
          desc="recv_stub on N arbitrary symbolic bytes (every prefix length 0..N available), differential against an independent reference decoder"),
+    Spec("interrupted_encode", h_interrupted_encode, {"quick": {}, "thorough": {}},
+         covers=["interrupted", "check:message-A-keeps-its-own-header-fields", "check:message-B-keeps-its-own-header-fields"],
+         native_patch=env.native_env, reset=_reset,
+         desc="message A is being built and is interrupted before any one statement of SendingMessage.__init__ while a complete message B is built (another thread's whole encode scheduled at that point); symbolic types and sequence numbers; both messages decode to their own fields"),
     Spec("compressed_body", h_compressed_body, {"quick": {}, "thorough": {}},
          covers=["compressed:complete", "compressed:cut", "check:truncated-compressed-body-is-refused"],
          native_patch=env.native_env, reset=_reset,
